@@ -290,6 +290,50 @@ theorem wsgi_call_balanced (xv : Bool) (r : Req) (stack0 : List Path) :
     (runTop xv r stack0).2.2 = stack0 :=
   subrequest_balanced xv true r [] stack0
 
+/-- **Custom execution policies** (`config.set_execution_policy`): under the retrying policy (a fresh request per
+attempt, each run as `with router.request_context(environ) as request: router.invoke_request(request)`) the stack is
+given back unchanged whatever the attempts do — and every attempt is a `runReq`, so all theorems below about a
+request (finished callbacks drain, response callbacks then NewResponse, current request) hold for every attempt; under
+the `IExecutionPolicy` docstring policy (an escaping exception is rendered once more by the policy) likewise. -/
+theorem execution_policies_balanced (xv : Bool) :
+    (∀ (rs : List Req) (i : Nat) (stack0 : List Path), (runRetry xv rs i stack0).2.2 = stack0) ∧
+    (∀ (r : Req) (stack0 : List Path), (runSimple xv r stack0).2.2.2 = stack0) := by
+  constructor
+  · intro rs
+    induction rs with
+    | nil => intro i stack0; rfl
+    | cons r rest ih =>
+      intro i stack0
+      simp only [runRetry]
+      have h := subrequest_balanced xv true r [i] stack0
+      generalize runReq xv true r [i] stack0 = res at h
+      obtain ⟨tr, out, st1⟩ := res
+      simp only at h
+      subst h
+      split
+      · next =>
+        have := ih (i + 1) st1
+        generalize runRetry xv _ (i + 1) st1 = res2 at this
+        obtain ⟨trs, out', st2⟩ := res2
+        exact this
+      · rfl
+  · intro r stack0
+    cases r with
+    | mk cfg subs =>
+      have hsub := runSubs_inv xv subs [] 0
+      have h := (invokeRequest_shape (xv := xv) (cfg := cfg) (useTw := true) hsub { stack := [] :: stack0 }
+        (by simp) rfl rfl rfl).1
+      simp only [runSimple]
+      generalize invokeRequest xv cfg [] true (runSubs xv subs [] 0) { stack := [] :: stack0 } = res at h
+      cases res with
+      | ok u s => simp only [R.st] at h; simp [h]
+      | err e s =>
+        simp only [R.st] at h
+        obtain ⟨evs, hst⟩ := invokeExcView_step xv cfg [] e { stack := s.stack }
+        simp only
+        rw [hst.stack]
+        simp [h]
+
 /-- Every observation of the current request made while the request is served — in the view body, when the view
 body resumes after a subrequest or an explicit exception-view invocation, in the exception view, in every other
 hook and in every callback (also those registered by callbacks) — sees the request itself. -/
